@@ -98,7 +98,27 @@ pub fn no_panic<T>(what: &str, f: impl FnOnce() -> Result<T, Fail>) -> Result<T,
 pub fn name_pool(u: &Universe) -> NamePool {
     let mut classes: Vec<String> = u.known_classes.clone();
     classes.extend(u.other_classes.iter().take(6).cloned());
-    NamePool { classes, methods: u.known_methods.clone(), lines: u.lines.iter().copied().filter(|l| *l > 66).take(30).collect() }
+    NamePool { classes, methods: u.known_methods.clone(), lines: u.lines.iter().copied().filter(|l| *l > 66).take(30).collect(), hits: vec![] }
+}
+
+/// Name pool with (class, method, line) triples that resolve in this mapping.
+pub fn name_pool_for(file: &MapFile, u: &Universe) -> NamePool {
+    let mut p = name_pool(u);
+    for b in &file.blocks {
+        for it in &b.items {
+            if let crate::gen::mapping::Item::Method(m) = it {
+                let line = match m.usable() {
+                    Some((s, e)) if s <= e => s + (e - s) / 2,
+                    Some((s, _)) => s,
+                    None => 0,
+                };
+                if p.hits.len() < 64 {
+                    p.hits.push((b.obf.clone(), m.obf.clone(), line));
+                }
+            }
+        }
+    }
+    p
 }
 
 /// Derived extra queries for a case (deterministic function of the universe and `key`).
